@@ -386,14 +386,19 @@ static std::string cmd_alloc(bool fixed0, const std::vector<std::string>& toks) 
         if (t[0] == 'a') {
             if (v[0] == 0 && !fixed0) { slots.push_back(0); out << "x!idx-1 "; continue; }   // recorded defect: not executed here
             void* p = GivMMFreeList::allocate((size_t) v[0]);
+            if (p) memset(p, 0x30 + (int) (slots.size() % 60), (size_t) v[0]);
             slots.push_back(p);
             if (!p) out << "0 "; else out << addr_id(p) << "/" << header_index(p) << " ";
         } else if (t[0] == 'f') {
             GivMMFreeList::desallocate(slots[v[0]]); out << "f ";
         } else if (t[0] == 'r') {
             void* src = slots[v[0]];
+            unsigned char keep[2048]; size_t m = std::min((size_t) 2048, std::min((size_t) v[1], (size_t) v[2]));
+            if (src) memcpy(keep, src, m);
             void* p = GivMMFreeList::resize(src, (size_t) v[1], (size_t) v[2]);
-            slots.push_back(p); out << addr_id(p) << "/" << header_index(p) << " ";     // (src == 0: see the resize0 probe)
+            bool same = !src || memcmp(keep, p, m) == 0;       // the first min(old,new) bytes survive a move
+            if (p && (size_t) v[2] > (size_t) v[1]) memset((char*) p + v[1], 0x70 + (int) (slots.size() % 60), (size_t) v[2] - (size_t) v[1]);
+            slots.push_back(p); out << addr_id(p) << "/" << header_index(p) << (same ? "" : "!content") << " ";     // (src == 0: see the resize0 probe)
         }
     }
     std::vector<std::pair<int, std::vector<const void*> > > lists;
